@@ -55,6 +55,12 @@ CLAIMED = {
         "Trusted: a fresh identical router as the specification of pristine; sequential histories (sync.Pool reuse is measured: zero reuse => inconclusive).",
         "DESIGN.md section 4 C10",
     ),
+    "C11": (
+        "runtime monitoring: reference-normaliser monitor; small-scope exhaustive strings for totality/reflexivity (recover-observed), sampled pairs for equivalence on the unambiguous sub-language, server-style parsed request targets for the decoded/escaped path source",
+        "All strings up to length 5 (quick) / 7 (thorough) over {'/',' ','.','a','b',TAB} under both StrictLastSlash settings never panic as registered path, group prefix or request path and are reflexive; tens of thousands of (P,Q[,G]) pairs agree with N(P)==N(Q) <=> reached, Route.Path()==N(P); targets with %41/%2F/%20/%61 reach the route registered under URL.Path by default and under EscapedPath() with UseEncodedPath (static and dynamic).",
+        "Trusted: RefNormalize in harness/mon/pat.go, defined only on ws* '/'* core '/'* ws*; strings outside it get totality + reflexivity only.",
+        "DESIGN.md section 4 C11",
+    ),
     "C12": (
         "runtime monitoring: reference scope-model monitor over generated registration programs with probe routes after every Group return; Route.Path()/Handlers() observed at registration and at the end, per-route request traces, negative probes without the prefix",
         "Every route (incl. Controller registrations and probe routes registered right after each Group return) must carry exactly the concatenated prefixes and exactly the middleware of its enclosing groups in effect at registration; reachable under the full path with exactly that chain and not under the bare path.",
@@ -72,6 +78,12 @@ CLAIMED = {
         "For each request of each history the twins must agree on Match (route, params, allowed set) and ServeHTTP (handler trace with params seen by every handler, status, headers, body), for capacities 0,1,2,3,5,1000, with HEAD fallbacks, 405 probes, 404s and evictions.",
         "Trusted: the uncached twin as specification; handlers read-only on Params; registration finished before the first request.",
         "DESIGN.md section 4 C07",
+    ),
+    "C13": (
+        "runtime monitoring: (a) negative oracle by construction - generated definitions invalid for exactly one documented reason must panic at registration (recover-observed), valid neighbours must not; (b) totality monitor - fuzzed definitions x option sets, whatever is accepted is probed through Match/QuickMatch/ServeHTTP with hostile methods and paths, any panic out of the router is a violation; child process with in-flight journal for process-fatal events",
+        "20k (quick) / 1M (thorough) invalid definitions over 8 reasons and ~40 registration shapes all rejected; 25k / 2M fuzzed definitions (35% accepted) x ~190 hostile probes each without a panic, incl. caching on routers without routes, InterceptAll with blank paths, non-UTF-8, 4 KiB paths.",
+        "Trusted: the generators' classification of definitions as invalid-by-construction (checked against valid neighbours). The handler limit is the per-route limit (group + route middleware); global middleware is not counted by registration.",
+        "DESIGN.md section 4 C13",
     ),
     "C14": (
         "runtime monitoring: lock-step reference-model monitor (list-based LRU) with invariant hook on the live cache after every step, small-scope exhaustive operation sequences + random ones; router-level trace check of cache keys after each dynamic request; porcupine linearizability check of concurrent histories",
